@@ -78,6 +78,12 @@ func classifyLoop(l *Loop) {
 		l.Kind, l.Why = "search", "the exit test is a data predicate: "+abbr(Desc(cond), 1)
 		return
 	}
+	// the head test must really leave the loop when it fails: with `a || b`
+	// conditions the false edge leads to a further test inside the loop
+	if len(h.Succs) != 2 || l.Blocks[h.Succs[1]] {
+		l.Kind, l.Why = "search", "failing the head comparison does not leave the loop (a further data condition can keep it running): "+abbr(Desc(cond), 1)
+		return
+	}
 	// counted / range
 	stepOf := func(v ssa.Value) (phi *ssa.Phi, step int64, ok bool) {
 		v = stripConv(v)
